@@ -29,7 +29,10 @@ ASSUMPTIONS = ["crash = process kill (page cache survives); power loss / fsync o
                "labels of the steps taken); equal (per-loader logs, directory snapshot, budgets) => equal futures; identical "
                "loaders are interchangeable (sorted)",
                "CPython reference counting closes the pickle file before the rename",
-               "direct exploration covers 2-4 loaders; 5..16 only through the TLA+ model (models/) if built",
+               "direct exploration covers 2-4 loaders; 5..16 loaders are covered by the TLA+ protocol model "
+               "(models/CacheLoader*.tla, TLC, counter abstraction) whose every N=2 (thorough: and N=3) edge is replayed "
+               "against the code at the granularity of its actions; finer interleavings than the model's actions are "
+               "explored directly only for 2-4 loaders",
                "pinned SHA-256 values cannot be compared with the real remote files offline; the verification logic runs "
                "with payloads whose hashes are known"]
 ANCHORS = {"datasets/_base.py": [(182, 192), (194, 200), (244, 267)]}
@@ -121,7 +124,7 @@ def later_loads(home, cfg, key):
     if st not in ("absent", "good"):
         return [fail("cache-entry-corrupt", {"slot": st}, dict(key, slot=st[1]))]
     c2 = dict(cfg, dim=True, deia=False, n_retries=1, unpack=False)
-    w = LE.World([make_call(home, c2)], home, answer_fn=lambda lc, url: "URLError")
+    w = LE.World([make_call(home, c2)], home, answer_fn=lambda lc, url: "URLError", write_buffer=cfg.get("wbuf", 8192))
     set_gzip(w, cfg["gzip"])
     w.run_to_end(0)
     lc = w.loaders[0]
@@ -134,7 +137,7 @@ def later_loads(home, cfg, key):
     else:
         if lc.result[0] == "ok":
             fails.append(fail("data-returned-without-download", None, key))
-    w = LE.World([make_call(home, c2)], home)
+    w = LE.World([make_call(home, c2)], home, write_buffer=cfg.get("wbuf", 8192))
     set_gzip(w, cfg["gzip"])
     w.run_to_end(0)
     lc = w.loaders[0]
@@ -162,7 +165,7 @@ def check_faults(case):
                 return next(it)
             except StopIteration:
                 raise HarnessError("network script exhausted")
-        w = LE.World([make_call(home, cfg)], home, answer_fn=ans)
+        w = LE.World([make_call(home, cfg)], home, answer_fn=ans, write_buffer=cfg.get("wbuf", 8192))
         set_gzip(w, cfg["gzip"])
         w.run_to_end(0)
         lc = w.loaders[0]
@@ -210,7 +213,7 @@ def faults_body(ctx):
     gz = ctx.choose([False, True], "gzip")
     init = ctx.choose(INITS, "init")
     unpack = ctx.choose([False, True], "unpack") if (nr == 1) else False
-    cfg = {"n_retries": nr, "dim": dim, "deia": deia, "gzip": gz, "unpack": unpack}
+    cfg = {"n_retries": nr, "dim": dim, "deia": deia, "gzip": gz, "unpack": unpack, "wbuf": 16 if nr == 0 else 8192}
     home = fresh_home()
     key = {"harness": "faults", "n_retries": nr, "flags": [dim, deia]}
     answers = []
@@ -221,7 +224,7 @@ def faults_body(ctx):
             a = ctx.choose(ANSWERS, "net%d" % len(answers))
             answers.append(a)
             return a
-        w = LE.World([make_call(home, cfg)], home, answer_fn=ans)
+        w = LE.World([make_call(home, cfg)], home, answer_fn=ans, write_buffer=cfg.get("wbuf", 8192))
         set_gzip(w, gz)
         w.run_to_end(0)
         lc = w.loaders[0]
@@ -242,7 +245,7 @@ def faults_body(ctx):
 # (b) crash points, one loader, two crash models
 def _run_until(home, cfg, answers, k):
     it = iter(answers)
-    w = LE.World([make_call(home, cfg)], home, answer_fn=lambda lc, url: next(it, "good"))
+    w = LE.World([make_call(home, cfg)], home, answer_fn=lambda lc, url: next(it, "good"), write_buffer=cfg.get("wbuf", 8192))
     set_gzip(w, cfg["gzip"])
     steps = 0
     while not w.all_done() and steps < k:
@@ -313,7 +316,8 @@ def crash_body(ctx):
     deia = ctx.choose([False, True], "force")
     init = ctx.choose(INITS, "init")
     answers = ctx.choose([["good"], ["URLError", "good"], ["ContentTooShortError", "good"], ["corrupt"]], "answers")
-    cfg = {"n_retries": 1, "dim": True, "deia": deia, "gzip": gz}
+    wbuf = ctx.choose([8192, 16], "write_buffer")
+    cfg = {"n_retries": 1, "dim": True, "deia": deia, "gzip": gz, "wbuf": wbuf}
     n = count_steps(cfg, init, answers)
     k = ctx.choose(n + 1, "kill_at")
     case = {"kind": "crash-point", "cfg": cfg, "init": init, "answers": answers, "k": k}
@@ -335,7 +339,7 @@ def _replay_events(home, cfgs, init, events):
 
     def ans(lc, url):
         return pending_ans.pop(lc.tid, "good")
-    w = LE.World([make_call(home, c) for c in cfgs], home, answer_fn=ans)
+    w = LE.World([make_call(home, c) for c in cfgs], home, answer_fn=ans, write_buffer=cfgs[0].get("wbuf", 8192))
     for lc, c in zip(w.loaders, cfgs):
         lc.gzip = c["gzip"]
     for ev in events:
@@ -486,14 +490,14 @@ def bfs(name, cfgs, init, budget, max_states=None):
 
 # ------------------------------------------------------------------------------------------------
 # (d) preemption-bounded stateless exploration (4 loaders)
-def preempt_body_factory(n_loaders, init):
+def preempt_body_factory(n_loaders, init, wbuf=8192):
     def body(ctx):
-        cfg = {"n_retries": 1, "dim": True, "deia": False, "gzip": False}
+        cfg = {"n_retries": 1, "dim": True, "deia": False, "gzip": False, "wbuf": wbuf}
         cfgs = [cfg] * n_loaders
         home = fresh_home()
         try:
             prepare(home, init)
-            w = LE.World([make_call(home, c) for c in cfgs], home)
+            w = LE.World([make_call(home, c) for c in cfgs], home, write_buffer=cfgs[0].get("wbuf", 8192))
             cur = 0
             sched = []
             while True:
@@ -577,6 +581,8 @@ def harnesses(tier, seed):
     b00 = {"crashes": 0, "faults": 0}
     hs.append(mk("2-loaders-cold+1crash+1fault", [base, base], "empty", b11))
     hs.append(mk("2-loaders-forced-vs-cached+1crash+1fault", [forced, base], "cached", b11))
+    small = dict(base, wbuf=16)
+    hs.append(mk("2-loaders-cold-smallbuffer+1crash", [small, small], "empty", {"crashes": 1, "faults": 0}))
     hs.append(mk("3-loaders-cold", [base] * 3, "empty", b00))
     if not quick:
         hs.append(mk("3-loaders-cold+1crash+1fault", [base] * 3, "empty", b11))
@@ -604,4 +610,6 @@ def harnesses(tier, seed):
         if a == names[0]:
             ctx.sample({"first": a, "second": "each of the other %d remote datasets" % (len(names) - 1)})
     hs.append({"name": "dataset-pairs", "body": pairs_body, "bound_text": "all ordered pairs of remote datasets"})
+    from checks import c19_model
+    hs.extend(c19_model.harnesses(tier, seed))
     return hs
